@@ -23,7 +23,7 @@ ASSUMPTIONS = ["reaction table written from RFC 7252 section 4 and RFC 7967, ind
                "CON requests addressed to a multicast group are not generated (peer misbehaviour the statement does not cover)"]
 EXPECTED_PROBES = ["token_reused_after_completed_exchange", "duplicated_request", "ping", "piggyback", "empty_ack_then_separate", "handler_at_delay_minus_eps", "handler_at_delay_plus_eps",
                    "matched_con_response", "unmatched_con_response_unicast", "unmatched_con_response_multicast",
-                   "no_response_suppressed", "misfit", "request_to_multicast", "reliable_to_multicast", "boundary_message_id", "ipv4_mapped", "peer_request_under_endpoints_next_token", "crowd_of_pending_requests"]
+                   "no_response_suppressed", "misfit", "request_to_multicast", "reliable_to_multicast", "boundary_message_id", "ipv4_mapped", "peer_request_under_endpoints_next_token", "crowd_of_pending_requests", "forward_proxy"]
 
 DELAY = 0.1
 HANDLERS = {"fast": 0.0, "pre": DELAY - 1e-3, "post": DELAY + 1e-3, "slow": 0.5}
@@ -58,7 +58,22 @@ def gen_inject(r, i):
     return op
 
 
+def gen_proxy(r):
+    """The endpoint is a forward proxy: a client's requests (Proxy-Scheme + Uri-Host) are passed on to an origin server that
+    answers after a while -- piggy-backed on its ACK, or separately -- and the response is relayed.  Towards the client
+    the proxy is an endpoint like any other: same rules for acknowledging and for the type of the response."""
+    reqs = []
+    t = 0.0
+    for i in range(r.randint(1, 5)):
+        t += r.choice([0.0, 0.05, 0.5, 2.0])
+        reqs.append({"t": round(t, 3), "con": r.chance(0.7), "d": r.choice([0.0, 0.02, 0.08, 0.15, 0.3, 1.0]),
+                     "origin": r.choice(["piggy", "piggy", "sep_con", "sep_non"])})
+    return {"proxy": {"reqs": reqs}, "ops": []}
+
+
 def gen(r, tier):
+    if r.chance(0.06):
+        return gen_proxy(r)
     ops = []
     t = 0.0
     n = r.randint(1, 10)
@@ -143,6 +158,9 @@ def systematic(tier):
                                      "no_response": nr, "dst": "uni"},
                                     {"op": "inject", "t": dt, "type": typ2, "cls": "request", "code": rc.GET, "handler": "fast",
                                      "no_response": None, "dst": "uni", "reuse_token": True}]})
+    for org in ("piggy", "sep_con", "sep_non"):
+        for d in (0.0, 0.08, 0.15, 0.5):
+            out.append({"proxy": {"reqs": [{"t": 0.0, "con": True, "d": d, "origin": org}, {"t": 1.5, "con": False, "d": d, "origin": org}]}, "ops": []})
     for n in ((1100,) if tier == "quick" else (100, 1023, 1024, 1025, 2000)):
         out.append({"ops": [{"op": "inject", "t": 0.5 + 0.3 * k, "type": typ, "cls": "request", "code": rc.GET, "handler": h,
                              "no_response": None, "dst": "uni"} for k, (typ, h) in enumerate((("NON", "fast"), ("CON", "fast"), ("NON", "slow"), ("CON", "post")))],
@@ -185,7 +203,117 @@ class Peer(ScriptedEndpoint):
                                 "payload": b""}, fate=["deliver", 0.005])
 
 
+def execute_proxy(sim, scn):
+    import aiocoap
+    from aiocoap.proxy.server import ForwardProxy
+
+    loop = sim.loop
+    px = scn["proxy"]
+
+    async def setup():
+        ctx = await sim.server(None, common.SERVER_IP)
+        ctx.serversite = ForwardProxy(ctx)
+        return ctx
+
+    loop.run_until_complete(setup())
+    E = (common.SERVER_IP, 5683)
+    sim.net.names["origin.example"] = common.PEER_IPS[1]
+    sim.probe("forward_proxy")
+    plans = {}
+
+    class Origin(ScriptedEndpoint):
+        def handle(self, msg, src, data):
+            if msg is None:
+                return
+            if msg["type"] == rc.CON and msg["code"] >= 64:
+                return
+            if not (1 <= msg["code"] < 32):
+                return
+            q = rc.opt1(msg, rc.URI_QUERY)
+            i = int(q[2:]) if q else 0
+            spec = plans[i]
+            key = (src, msg["mid"])
+            if key in seen_o:
+                if seen_o[key] is not None:
+                    self.send(src, msg=seen_o[key])
+                return
+            payload = b"origin:%d" % i
+            if msg["type"] == rc.NON:
+                seen_o[key] = None
+                self.loop.after(spec["d"], lambda: self.send(src, msg={"type": rc.NON, "code": rc.CONTENT, "mid": self.next_mid(), "token": msg["token"],
+                                                                       "options": [], "payload": payload}))
+            elif spec["origin"] == "piggy":
+                ack = {"type": rc.ACK, "code": rc.CONTENT, "mid": msg["mid"], "token": msg["token"], "options": [], "payload": payload}
+                seen_o[key] = ack
+                self.loop.after(spec["d"], lambda: self.send(src, msg=ack))
+            else:
+                ack = {"type": rc.ACK, "code": 0, "mid": msg["mid"], "token": b"", "options": [], "payload": b""}
+                seen_o[key] = ack
+                self.send(src, msg=ack)
+                typ = rc.CON if spec["origin"] == "sep_con" else rc.NON
+                self.loop.after(spec["d"], lambda: self.send(src, msg={"type": typ, "code": rc.CONTENT, "mid": self.next_mid(), "token": msg["token"],
+                                                                       "options": [], "payload": payload}))
+
+    seen_o = {}
+    origin = Origin(sim, common.PEER_IPS[1], 5683)
+    got = []
+
+    class Cl(ScriptedEndpoint):
+        def handle(self, msg, src, data):
+            if msg is None:
+                return
+            got.append((self.loop.now, msg))
+            if msg["type"] == rc.CON and msg["code"] >= 64:
+                self.send(src, msg={"type": rc.ACK, "code": 0, "mid": msg["mid"], "token": b"", "options": [], "payload": b""})
+
+    client = Cl(sim, common.PEER_IPS[0], 5683)
+    for i, q in enumerate(px["reqs"]):
+        plans[i] = q
+        m = {"type": rc.CON if q["con"] else rc.NON, "code": rc.GET, "mid": 0x6100 + i, "token": bytes([0xA0, i]),
+             "options": [(rc.URI_HOST, b"origin.example"), (rc.URI_PATH, b"x"), (rc.URI_QUERY, b"i=%d" % i), (rc.PROXY_SCHEME, b"coap")],
+             "payload": b""}
+        client.send(E, msg=m, fate=["at", q["t"]])
+    sim.run()
+    sim.nontrivial = True
+    for i, q in enumerate(px["reqs"]):
+        M, T = 0x6100 + i, bytes([0xA0, i])
+        ident = {"i": i, "con": q["con"], "origin_answers": q["origin"], "after": q["d"], "via": "forward proxy"}
+        mine = [(t, m) for (t, m) in got if m["token"] == T or (m["type"] in (rc.ACK, rc.RST) and m["mid"] == M)]
+        acks = [(t, m) for (t, m) in mine if m["type"] == rc.ACK]
+        rsts = [(t, m) for (t, m) in mine if m["type"] == rc.RST]
+        resp = [(t, m) for (t, m) in mine if m["code"] >= 64]
+        stray_acks = [(t, m) for (t, m) in acks if m["mid"] != M]
+        if stray_acks:
+            sim.violation("C10/response-sent-as-ack-under-foreign-message-id", dict(ident, sent=rc.summary(stray_acks[0][1])))
+            continue
+        if rsts:
+            sim.violation("C10/request-answered-with-rst", ident)
+            continue
+        if len(resp) != 1 or resp[0][1]["payload"] != b"origin:%d" % i:
+            sim.violation("C10/proxied-request-not-answered-once", dict(ident, responses=[rc.summary(m) for (t, m) in resp][:3]))
+            continue
+        r_t, r_m = resp[0]
+        if not q["con"]:
+            if acks or r_m["type"] != rc.NON:
+                sim.violation("C10/non-request-answered-with-other-type", dict(ident, sent=rc.summary(r_m), acks=len(acks)))
+            continue
+        if len(acks) != 1:
+            sim.violation("C10/con-request-ack-count", dict(ident, n=len(acks)))
+            continue
+        a_t, a_m = acks[0]
+        if a_m["code"] == 0:
+            sim.probe("empty_ack_then_separate")
+            if r_m["type"] not in (rc.CON, rc.NON) or r_m["mid"] == M:
+                sim.violation("C10/separate-response-type-or-id", dict(ident, sent=rc.summary(r_m)))
+        else:
+            sim.probe("piggyback")
+    for (t, m, en, es) in sim.loop_exceptions():
+        sim.anomaly("loop-exception", "%s %s %s" % (m, en, es))
+
+
 def execute(sim, scn):
+    if scn.get("proxy"):
+        return execute_proxy(sim, scn)
     # the dual-stack variant: the same scenario over IPv4-mapped addresses (the udp6 transport serves IPv4 through its
     # IPv6 socket; "All CoAP Nodes" is 224.0.1.187 there)
     v4 = bool(scn.get("v4"))
